@@ -987,3 +987,83 @@ func allFlagsClearedAfterAllInterfaces(c *core.Ctx, rule string) {
 	ast.Inspect(f.Decl.Body, visit)
 	c.Check(n >= 1, rule, f.Name()+" clears the SSN flags it served", f.Decl.Pos(), "no call reaching clearAllSSNFlags found")
 }
+
+// removedSessionsAreDeconfiguredOnEverySuccess: a reload ends like a fresh start only if the sessions the new
+// configuration no longer names are removed.  Every successful return of bgpConfigurator.configure passes through
+// deconfigureRemovedSessions; an early "nothing to configure" return (no groups) leaves all old sessions running.
+func removedSessionsAreDeconfiguredOnEverySuccess(c *core.Ctx, rule string) {
+	f := c.MustFunc("cmd/bio-rd.(*bgpConfigurator).configure")
+	if f == nil {
+		return
+	}
+	c.Analysed(f)
+	gate := func(nd ast.Node) bool {
+		return core.NodeHas(nd, func(x ast.Node) bool {
+			cl, ok := x.(*ast.CallExpr)
+			return ok && core.FuncKey(core.Callee(f.Pkg, cl)) == "cmd/bio-rd.(*bgpConfigurator).deconfigureRemovedSessions"
+		})
+	}
+	rets, end := core.ExitsWithout(c.P.CFG(f), gate)
+	var bad []*ast.ReturnStmt
+	for _, r := range rets {
+		if len(r.Results) == 1 && core.IsNilIdent(f.Pkg, r.Results[0]) {
+			bad = append(bad, r)
+		}
+	}
+	at := f.Decl.Pos()
+	if len(bad) > 0 {
+		at = bad[0].Pos()
+	}
+	c.Check(len(bad) == 0 && !end, rule, f.Name()+" every successful return comes after deconfigureRemovedSessions", at,
+		"configure can return success without removing the sessions that are no longer configured: after such a reload the server runs sessions a fresh start with the same configuration would not have")
+}
+
+// eachFamilyHasItsOwnSettings: PeerConfig.IPv4 and PeerConfig.IPv6 are pointers; the per-family options (add-path,
+// extended next hop, policies) are written through them afterwards.  Each store to one of the two fields in the
+// configurator takes a freshly allocated object (a constructor call or a literal): one object handed to both makes the
+// options of the family configured last apply to both.
+func eachFamilyHasItsOwnSettings(c *core.Ctx, rule string) {
+	v4, v6 := c.P.Field(srv, "PeerConfig", "IPv4"), c.P.Field(srv, "PeerConfig", "IPv6")
+	n := 0
+	for _, f := range c.P.FuncsIn("cmd/bio-rd") {
+		if f.Decl.Body == nil || isTestFn(c.P, f) {
+			continue
+		}
+		judge := func(rhs ast.Expr, at ast.Node, which string) {
+			n++
+			c.Analysed(f)
+			ok := false
+			switch x := core.Unparen(rhs).(type) {
+			case *ast.CallExpr:
+				ok = c.P.OwningCall(f, x)
+			case *ast.UnaryExpr:
+				_, ok = core.Unparen(x.X).(*ast.CompositeLit)
+			case *ast.Ident:
+				ok = x.Name == "nil"
+			}
+			c.Check(ok, rule, fmt.Sprintf("%s store to PeerConfig.%s takes a fresh object", f.Name(), which), at.Pos(),
+				"the address family settings stored here are not allocated for this store (a shared object or a parameter): IPv4 and IPv6 can point at one object, so add-path / next-hop options set for one family silently apply to the other")
+		}
+		ast.Inspect(f.Decl.Body, func(nd ast.Node) bool {
+			switch x := nd.(type) {
+			case *ast.AssignStmt:
+				if len(x.Lhs) != len(x.Rhs) {
+					return true
+				}
+				for i, l := range x.Lhs {
+					if fv := core.FieldOf(f.Pkg, l); fv != nil && (fv == v4 || fv == v6) {
+						judge(x.Rhs[i], x, fv.Name())
+					}
+				}
+			case *ast.KeyValueExpr:
+				if id, ok := x.Key.(*ast.Ident); ok {
+					if o := f.Pkg.TypesInfo.ObjectOf(id); o != nil && (o == types.Object(v4) || o == types.Object(v6)) {
+						judge(x.Value, x, id.Name)
+					}
+				}
+			}
+			return true
+		})
+	}
+	c.Check(n >= 2, rule, "stores to PeerConfig.IPv4 / IPv6 in the configurator", 0, fmt.Sprintf("only %d found", n))
+}
